@@ -73,6 +73,8 @@ def tabu_search[T, M](
     best_solution, best_obj, best_iter = solution, obj, 0
     tabu_list, tabu_set = deque(maxlen=cooldown), set()
 
+    iteration = 0  # stays 0 when max_iter is 0 (the loop body never runs)
+
     for iteration in range(1, max_iter + 1):
         candidates = list(neighbors(solution))
         if not candidates:
